@@ -25,3 +25,14 @@ func verifPoint(name, pass string, start, end uint64) {
 		VerifPoint(name, pass, start, end)
 	}
 }
+
+// VerifReadBufSize, when set, overrides the size (bytes) of the buffer through which the plot pass reads table A
+// (64 MiB otherwise: small tables never reach a buffer refill).
+var VerifReadBufSize func() (int, bool)
+
+func verifReadBufSize() (int, bool) {
+	if VerifReadBufSize != nil {
+		return VerifReadBufSize()
+	}
+	return 0, false
+}
